@@ -129,8 +129,10 @@ func runC16(ctx *core.Ctx, unit int) {
 	case unit < nt:
 		sc := c16ThreadScenarios[unit/c16Shards]
 		threads, bound := 2, 3
-		if ctx.Thorough() && !strings.Contains(sc, "+vendored") && sc != "unshared+caching" && sc != "helpers" {
-			// three threads for the four base scenarios; the vendored variants repeat two of them with other
+		if ctx.Thorough() && !strings.Contains(sc, "+vendored") && !strings.HasPrefix(sc, "unshared") && sc != "helpers" {
+			// three threads for the three scenarios that share a resolver (in the unshared ones a third thread only
+			// multiplies interleavings of events that cannot conflict unless there is hidden shared state, which two
+			// threads expose as well); the vendored variants repeat two of them with other
 			// files, and the caching scenario's threads touch only their own caches (a third thread multiplies
 			// interleavings of independent events without adding a conflict): those stay at two threads
 			threads, bound = 3, 3
